@@ -82,6 +82,8 @@ def show(t):
     k = t[0]
     if len(t) == 1:
         return k
+    if k == "R":            # R(k,t): `type rec t` declared in function scope k (harness/c08/main.go)
+        return "R(%d,%s)" % (t[1], show(t[2]))
     if k in UNARY:
         return "%s(%s)" % (k, show(t[1]))
     if k == "A":
@@ -1161,6 +1163,19 @@ def run(ctx, args):
         if p["done"] and not (set(p["causes"]) & ALIGN_CAUSES) and not aligns_agree(i):
             p["done"] = False
             p["causes"].append("(alignment differs: not explained by a size-only cause)")
+        if p["done"] and p["causes"] == ["c-background-func-field"] and p["t"][0] != "MB" and meta[i][2] is None:
+            # the known cause is narrow: goProgram.Offsetsof charges the closure word to the raw function-pointer members
+            # of the C struct ITSELF (it only sees the field list), and the descriptor drops the name.  The folded
+            # unsafe.Sizeof/Alignof (extraSize stops at a named type with C background) equal the LLVM numbers, and so
+            # do the folded offsets of every ENCLOSING ordinary type.  Anything else is not this cause.
+            d0 = decode(ro[i], True)
+            t0 = meta[i][1]
+            if d0["a"][:2] != d0["b"][:2]:
+                p["done"] = False
+                p["causes"].append("(unsafe.Sizeof/Alignof of a type with a `//llgo:type C` part differs from the LLVM size: not the known Offsetsof/descriptor cause)")
+            elif t0[0] != "NC" and d0["a"][2] != d0["b"][2]:
+                p["done"] = False
+                p["causes"].append("(unsafe.Offsetof in an ordinary struct that contains a `//llgo:type C` type differs from the LLVM offsets: not the known cause)")
         if p["done"]:
             for cause in p["causes"]:
                 key = "layout:%s:%s" % (mt, cause)
@@ -1226,6 +1241,50 @@ def run(ctx, args):
                    "PtrBytes of the descriptor is not the prefix of the value that can hold pointers",
                    {"type": go_type(parse(f[2])), "line": l_, "real": r_, "PtrBytes": got, "want": ref})
     ctx.log("cause attribution done: %s, unexplained %d; PtrBytes %s" % (spec_fail_keys, len(unexplained), pb_stats))
+    # ---- 3d. same-named function-local types: `func f() { type rec … }; func g() { type rec … }` in ONE package.  The
+    #          identifier and the package path are equal, only the declaring scope differs; the layout of a defined type
+    #          is that of its underlying type wherever it is declared.  Oracle (no model, no llgo code): the answer for
+    #          R(k,t) — `type rec t` in a function scope of its own — and for everything built from it (array, struct
+    #          field, pointer element, map key / element incl. the EMITTED map descriptor) must be, number for number,
+    #          the answer of the same process for the package-level N(t), which sections 2/3 judge.
+    lt_pool = []
+    for t in terms:
+        u = under(t)
+        if u[0] in ("T", "A") and not contains(t, "NC") and not contains(t, "B") and len(show(t)) < 100 and not is_zero(u):
+            lt_pool.append(u)
+    lt_fixed = [parse(x) for x in ["T(i32)", "T(i64,str,A(3,i64))", "i8", "str", "A(17,i64)", "T(F,u8)", "T(i8,i64)", "E", "A(129,u8)", "f64"]]
+    lt_types = lt_fixed + rng.sample(lt_pool, min(len(lt_pool), 60 if quick else 600))
+    lt_keys = [parse(x) for x in ["i32", "T(i8,i32)", "A(2,i16)", "str", "T(str,i8)", "A(33,i32)", "i64", "A(129,u8)", "u8", "T(i64,i64,i64)"]]
+    lt_req, lt_meta = [], []
+    for n_, t in enumerate(lt_types):
+        for which, wrap in (("itself", lambda x: x), ("array element", lambda x: ("A", 3, x)), ("struct field", lambda x: ("T", [("u8",), x])),
+                            ("slice element", lambda x: ("S", x))):
+            for rt, mt in TARGETS:
+                lt_req.append("q %s %s" % (rt, show(wrap(("N", t))))); lt_meta.append(None)
+                lt_req.append("q %s %s" % (rt, show(wrap(("R", n_, t)))))
+                lt_meta.append((mt, which, n_, t))
+    for n_, t in enumerate(lt_types):
+        k = lt_keys[n_ % len(lt_keys)]
+        for rt, mt in TARGETS:
+            lt_req.append("mb %s %s %s" % (rt, show(("N", k)), show(("N", t)))); lt_meta.append(None)
+            lt_req.append("mb %s %s %s" % (rt, show(("R", 1000 + n_, k)), show(("R", n_, t)))); lt_meta.append((mt, "map key and element", n_, t))
+    lt_out = real(lt_req)
+    lt_stats = {"types": len(lt_types), "requests": len(lt_req) // 2, "differ": 0}
+    lt_bad = []
+    for j in range(1, len(lt_req), 2):
+        if lt_out[j] != lt_out[j - 1]:
+            lt_stats["differ"] += 1
+            lt_bad.append(j)
+    for j in sorted(lt_bad, key=lambda j: (len(lt_req[j]), j))[:8]:
+        mt, which, n_, t = lt_meta[j]
+        earlier = [go_type(x) for x in lt_types[:n_]][-3:]
+        ctx.report("layout:%s:local-type-same-name:%s" % (mt, lt_req[j].split(None, 2)[2].replace(" ", ",")),
+                   "a function-local `type rec` (used as %s) does not get the numbers of the same type declared at package level; other functions of the package declare a `type rec` too" % which,
+                   {"go": "func f%d() { type rec %s; … }   // one of %d functions of one package that each declare their own `type rec`; the ones asked just before: %s" % (n_, go_type(t), len(lt_types), earlier),
+                    "request (R(k,t) = `type rec t` in function scope k)": lt_req[j], "real": lt_out[j],
+                    "request with the type at package level": lt_req[j - 1], "real at package level": lt_out[j - 1],
+                    "meaning": "a=<compile-time size>,<align>,<offsets> b=<LLVM …> c=<descriptor size>,<Align>,<FieldAlign>,<PtrBytes>,<offsets> e=<referenced descriptor size>,<align>; md=<KeySize>,<ValueSize>,<BucketSize>,<flags> of the emitted map descriptor"})
+    ctx.log("same-named function-local types: %s" % lt_stats)
     # ---- 4. C-compatible types on amd64: gcc is the reference for the real numbers and for the model's cLayout
     cterms = [t for t in terms if is_c(t)]
     while len(cterms) < n_c:
@@ -1322,6 +1381,14 @@ def run(ctx, args):
             descr = (cn[0], cn[5:]) if len(cn) > 4 else (cn[0], [])
             ok = fold == code == descr and an[1] == cn[1] == cn[2]
             if contains(t, "NC"):
+                if an[0] != bn[0] or (t[0] != "NC" and fold != code):
+                    # outside the known cause (which is about Offsetof INSIDE the C struct and the descriptor): the folded
+                    # unsafe.Sizeof is not the stride generated code uses / an enclosing struct's folded offsets are off
+                    e2e_stats["bad"] += 1
+                    ctx.report("layout:amd64:c-background-sizeof:e2e:" + show(t), "compiled program: unsafe.Sizeof/Offsetof of a type with a `//llgo:type C` part is not what generated code uses",
+                               {"term": show(t), "go": go_type(t), "line": "a=%s b=%s c=%s" % (a, b, c),
+                                "meaning": "a=<Sizeof>,<Alignof>,<Offsetof…> folded by the compiler; b=<stride of [2]T>,<&s.f - &s …> in generated code; c=descriptor"})
+                    continue
                 if not ok:
                     e2e_stats["bad"] += 1
                     ctx.report("layout:amd64:c-background-func-field", "compiled program: a `//llgo:type C` struct with a function-pointer field: folded constants, generated addresses and descriptor differ",
@@ -1423,7 +1490,7 @@ def run(ctx, args):
                                "input_distribution": {"requests": stats, "per_target": per_target, "generator_depths": depth_hist,
                                                       "c_compatible_vs_gcc": len(cterms), "e2e_amd64": e2e_stats,
                                                       "causes_of_disagreement": spec_fail_keys, "unexplained": len(unexplained),
-                                                      "ptrbytes": pb_stats},
+                                                      "ptrbytes": pb_stats, "same_named_local_types": lt_stats},
                                "spec_failures_on_real_code": stats["disagree"], "correspondence_mismatches": len(mism),
                                "map_descriptor_spec": "independent (checks/c08.py map_spec): flags, KeySize/ValueSize, BucketSize and the runtime's slot addressing recomputed from key/elem size+alignment in generated code; boundary types of 127/128/129 bytes generated systematically; unexplained map descriptors %d" % n_mb,
                                "sizes_overrides": {k: list(v) for k, v in overrides.items()}})
